@@ -182,7 +182,8 @@ fn gen_case(bytes: &[u8]) -> Case {
 fn heavy_cases(seed: u64) -> Vec<Case> {
     let call = |f: &str, k: i128| Expr::func(f, Expr::Vec(vec![Expr::reff("id"), Expr::value(k)]));
     let mut fns = BTreeMap::new();
-    for (i, name) in ["fa", "fb", "fc", "fd"].iter().enumerate() {
+    // (names that differ only by trailing digits: fa / fa1 / fa11)
+    for (i, name) in ["fa", "fb", "fc", "fd", "fa1", "fa11"].iter().enumerate() {
         fns.insert(name.to_string(), me::FnSpec { cacheable: i % 2 == 0 || *name == "fd", fail_on: vec![], fail_first: 0, uncacheable_after: 0 });
     }
     let nest = |mut e: Expr, depth: usize| {
@@ -202,6 +203,7 @@ fn heavy_cases(seed: u64) -> Vec<Case> {
         ("deep0".into(), nest(call("fa", 1), 12)),
         ("deep1".into(), nest(call("fb", 2), 10)),
         ("deep2".into(), nest(Expr::Vec(vec![call("fc", 3), call("fd", 4)]), 9)),
+        ("names".into(), Expr::Vec(vec![call("fa1", 1), call("fa", 1), call("fa11", 1), call("fa1", 11), call("fa", 11)])),
     ];
     for (n, raw) in [(400usize, false), (96, true)] {
         out.push(Case {
@@ -241,6 +243,78 @@ impl Case {
             self.same_input = true;
         }
         self
+    }
+}
+
+/// One evaluation is held suspended inside a user function while tens of thousands of other evaluations of the same
+/// ruleset start and finish; when it is let go it must finish as if it had run alone (its own results, one invocation
+/// per cacheable call).
+fn check_parked(rt: &tokio::runtime::Runtime, others: usize) -> Verdict {
+    use rvv::probe::PARK_RELEASE;
+    let call = |f: &str, x: Expr| Expr::func(f, Expr::Vec(vec![Expr::reff("id"), x]));
+    let mut fns = BTreeMap::new();
+    fns.insert("fa".to_string(), me::FnSpec { cacheable: true, fail_on: vec![], fail_first: 0, uncacheable_after: 0 });
+    fns.insert("fc".to_string(), me::FnSpec { cacheable: true, fail_on: vec![], fail_first: 0, uncacheable_after: 0 });
+    let rule = Expr::Vec(vec![
+        call("fa", Expr::value(1)),
+        Expr::iif(Expr::eq(Expr::reff("id"), Expr::value(1000)), call("fc", Expr::value("park".to_string())), Expr::value(0)),
+        call("fa", Expr::value(1)),
+        call("fc", Expr::value(2)),
+    ]);
+    let spec = SetSpec { rules: vec![("r".into(), rule)], fns, symbols: BTreeMap::new(), suspend: 1 };
+    let facts = |id: i128| rvv::pool::map(&[("id", Value::Int(id))]);
+    // baseline: the parked input alone, nothing held
+    PARK_RELEASE.store(true, Ordering::SeqCst);
+    let base = probe::build(&spec, true);
+    let base_out = detach(rt.block_on(base.ruleset.evaluate_value(&facts(1000))).expect("evaluate_value"));
+    let base_log = attributed(&base.log.lock().unwrap(), 0);
+    let built = probe::build(&spec, true);
+    let log = built.log.clone();
+    let rs = Arc::new(built.ruleset);
+    PARK_RELEASE.store(false, Ordering::SeqCst);
+    let (parked_out, others_ok) = rt.block_on(async {
+        let rs1 = rs.clone();
+        let parked = tokio::spawn(async move { detach(rs1.evaluate_value(&rvv::pool::map(&[("id", Value::Int(1000))])).await.expect("evaluate_value")) });
+        // wait until it is really parked (it has made its first two calls)
+        for _ in 0..100_000 {
+            tokio::task::yield_now().await;
+            if log.lock().unwrap().len() >= 2 {
+                break;
+            }
+        }
+        let rs2 = rs.clone();
+        let runner = tokio::spawn(async move {
+            let f = rvv::pool::map(&[("id", Value::Int(1001))]);
+            let mut ok = true;
+            let mut first: Option<Outs> = None;
+            for _ in 0..others {
+                let o = detach(rs2.evaluate_value(&f).await.expect("evaluate_value"));
+                match &first {
+                    None => first = Some(o),
+                    Some(w) => ok &= same_outs(w, &o),
+                }
+            }
+            ok
+        });
+        let others_ok = runner.await.unwrap_or(false);
+        PARK_RELEASE.store(true, Ordering::SeqCst);
+        (parked.await.ok(), others_ok)
+    });
+    PARK_RELEASE.store(true, Ordering::SeqCst);
+    let mine = attributed(&built.log.lock().unwrap(), 0);
+    let describe = |o: &Outs| o.iter().map(|(n, v)| format!("{n}={}", v.as_ref().map(show_value).unwrap_or_else(|e| format!("Err({e})")))).collect::<Vec<_>>();
+    match parked_out {
+        Some(out) if same_outs(&out, &base_out) && mine == base_log && others_ok => Ok(()),
+        other => Err(Issue::new(
+            "threads:parked-evaluation",
+            format!(
+                "an evaluation held suspended while {others} other evaluations of the shared ruleset ran gives {:?} with invocations {:?}; alone {:?} with {:?}; the other evaluations agreed among themselves: {others_ok}",
+                other.as_ref().map(describe),
+                mine,
+                describe(&base_out),
+                base_log
+            ),
+        )),
     }
 }
 
@@ -445,6 +519,15 @@ fn main() {
         }
         let j: serde_json::Value = serde_json::from_str(&text).expect("json");
         let case = j.get("case").cloned().unwrap_or(j);
+        if let Some(n) = case.get("parked_others").and_then(|x| x.as_u64()) {
+            if let Err(i) = check_parked(&rt, n as usize) {
+                println!("DETAIL property=C18 sig={} {}", i.sig, i.msg);
+                println!("VIOLATION property=C18 replay={}", args[3]);
+                std::process::exit(1);
+            }
+            println!("REPLAY property=C18 holds on {}", args[3]);
+            return;
+        }
         let c = case_from_json(&case).expect("decode case");
         for _ in 0..50 {
             if let Err(i) = check(&rt, &c, &overlap_seen) {
@@ -499,6 +582,23 @@ fn main() {
             }
         }
         ctx.finish_phase("large-shared-rulesets", hacc, false, th);
+        if !failed {
+            let mut pacc = Acc::default();
+            let tp = std::time::Instant::now();
+            for others in [100usize, 70_000] {
+                let r = check_parked(&rt, others);
+                pacc.case("parked", true, || format!("one evaluation held while {others} others run"));
+                if let Err(issue) = r {
+                    let case = json!({"parked_others": others});
+                    if let Err(issue) = ctx.triage(issue, &|| case.to_string()) {
+                        ctx.violation("threads", case, &issue);
+                        failed = true;
+                        break;
+                    }
+                }
+            }
+            ctx.finish_phase("one-parked-many-started", pacc, true, tp);
+        }
     }
     for i in 0..n {
         if failed {
